@@ -82,16 +82,73 @@ theorem C16_other_shapes_never_match (incoming hname version : Bytes)
     simp [this, C16_matched]
   · simp [C16_matched]
 
+private theorem parseComponent_some (a : Bytes) (x : Nat) (h : parseComponent a = some x) : parseDec a = some x := by
+  unfold parseComponent at h
+  cases hd : parseDec a with
+  | none => simp [hd] at h
+  | some n => simp only [hd] at h; split at h <;> simp_all
+
+/-- a strict version text is read with the same numbers by the unbounded reader of the spec -/
+theorem C16_parseStrict_parseBig (bs : Bytes) (v : Version) (h : parseStrict bs = some v) :
+    Spec.C16.parseBig bs = some v := by
+  unfold parseStrict at h
+  unfold Spec.C16.parseBig
+  split at h
+  · rename_i a b c heq
+    rw [heq]
+    cases ha : parseComponent a with
+    | none => simp [ha] at h
+    | some x =>
+      cases hb : parseComponent b with
+      | none => simp [ha, hb] at h
+      | some y =>
+        cases hc : parseComponent c with
+        | none => simp [ha, hb, hc] at h
+        | some z =>
+          simp only [ha, hb, hc, Option.some.injEq] at h
+          simp [parseComponent_some a x ha, parseComponent_some b y hb, parseComponent_some c z hc, h]
+  · simp at h
+
 theorem C16_spec_raw_on_model (incoming hname version : Bytes) :
-    Spec.C16.okRaw incoming hname false (C16_matched (matchProto incoming hname version)) = true := by
+    Spec.C16.okRaw incoming hname version false (C16_matched (matchProto incoming hname version)) = true := by
   unfold Spec.C16.okRaw matchProto
   generalize splitOn 47 incoming = l
   match l with
-  | [a, b, c] => by_cases hb : b = hname <;> simp [hb, C16_matched]
+  | [a, b, c] =>
+    by_cases hb : b = hname
+    · simp only [hb, ne_eq, not_true_eq_false, if_false, Bool.not_false, Bool.true_and]
+      cases hv : parseStrict version with
+      | none => cases Spec.C16.parseBig c <;> simp
+      | some sv =>
+        cases hp : parseStrict c with
+        | none => cases Spec.C16.parseBig c <;> simp [C16_matched] <;> split <;> simp
+        | some pv =>
+          rw [C16_parseStrict_parseBig c pv hp]
+          simp only [C16_matched]
+          by_cases hr : (pv.major == sv.major && decide (pv.minor ≤ sv.minor)) = true
+          · simp [hr]
+          · simp only [hr]
+            simp only [Bool.and_eq_true, beq_iff_eq, decide_eq_true_eq, not_and] at hr
+            by_cases hm : sv.major = pv.major
+            · have := hr hm.symm
+              simp [hm, this]
+            · simp [hm]
+    · simp [hb, C16_matched]
   | [] => simp [C16_matched]
   | [_] => simp [C16_matched]
   | [_, _] => simp [C16_matched]
   | _ :: _ :: _ :: _ :: _ => simp [C16_matched]
+
+/-- **numbers beyond 64 bits**: an identifier with the handler's name whose version is numeric but
+does not fit the version library's 64-bit components is never routed (the library refuses it) — in
+particular not one whose minor is astronomically *greater* than the handler's -/
+theorem C16_overflowing_version_never_matches (incoming hname version a pver : Bytes)
+    (hs : splitOn 47 incoming = [a, hname, pver]) (ho : parseStrict pver = none) :
+    C16_matched (matchProto incoming hname version) = false := by
+  unfold matchProto
+  rw [hs]
+  simp only [ne_eq, not_true_eq_false, if_false, ho]
+  cases parseStrict version <;> simp [C16_matched]
 
 /-- non-vacuity: a concrete identifier meets the hypotheses and is routed -/
 example : C16_matched (matchProto (protoId Extracted.discoveryProtocolName (showVersion ⟨2, 0, 7⟩))
